@@ -289,6 +289,23 @@ def analyse(unit, res):
                                 "file": it["file"], "place": "body", "counted": True, "status": "failed" if rest else "discharged", "diags": rest,
                                 "text": "every arithmetic operation, array access and call-site precondition in the body", "backend": "verus-z3",
                                 "solver_us": fstat.get("time_us"), "rlimit": fstat.get("rlimit")})
+    # call-site preconditions declared with `// [id tags]` markers (trait contracts, stand-ins): one obligation per marker,
+    # standing for every call site in this unit
+    failing_markers = set()
+    for o in obligations:
+        if o["kind"] == "call-site precondition":
+            failing_markers.add(o["id"].split("@")[0])
+    seen_markers = set()
+    for m in MARK_RE.finditer(res["gen_text"]):
+        mid, mtags = m.group(1), m.group(2).split()
+        if mid in seen_markers or not mtags:
+            continue
+        seen_markers.add(mid)
+        if mid in failing_markers:
+            continue
+        obligations.append({"unit": unit, "id": mid, "tags": mtags, "kind": "call-site precondition (every call site in this unit)", "fn": "(callers)", "file": "(contract)", "place": "call sites",
+                            "counted": True, "status": "discharged", "diags": [], "text": res["gen_text"][max(0, m.start() - 160):m.start()].strip().splitlines()[-1].strip() if m.start() > 0 else mid,
+                            "backend": "verus-z3", "solver_us": None, "rlimit": None})
     # lemmas (pure proof fns marked in the vspec)
     lemma_fail_lines = []
     for d in res["diags"]:
